@@ -3453,7 +3453,8 @@ static Token *function(Token *tok, Type *basety, VarAttr *attr) {
     fn->is_inline = attr->is_inline;
   }
 
-  fn->is_root = !(fn->is_static && fn->is_inline);
+  if (!(fn->is_static && fn->is_inline))
+    fn->is_root = true;
 
   if (consume(&tok, tok, ";"))
     return tok;
@@ -3491,6 +3492,7 @@ static Token *function(Token *tok, Type *basety, VarAttr *attr) {
   fn->locals = locals;
   leave_scope();
   resolve_goto_labels();
+  current_fn = NULL;
   return tok;
 }
 
